@@ -19,7 +19,7 @@ import numpy as np
 from hypothesis import strategies as st
 
 from vlib import arrays as A
-from vlib.runner import HarnessError, Part, R
+from vlib.runner import HarnessError, Part, R, make_sweep
 
 PROPERTY = "C08"
 RULE = ("Hypothesis draws D in 1..3, per-axis data/filter lengths 1..6 (full mode: independent; valid mode: "
@@ -457,7 +457,37 @@ def check_case(case):
     return r
 
 
-PARTS = [Part("conv", check_case, {"quick": 3000, "thorough": 60000}, strategy=st_case)]
+def sweep_configs():
+    """finite sub-domain enumerated completely: 1-D data length m and filter length n in 1..8, stride 1..3 or None, both modes;
+    2-D (m, n) pairs over {1..3}^2 x {1..3}^2 in valid mode (every admissible / mixed shape relation), strides (1,1) and (2,1)."""
+    out = []
+
+    def case(mode, m, n, strides, seed):
+        return {"mode": mode, "m": m, "n": n, "strides": strides, "mc": False, "ci": 1, "co": 1, "batch": [], "dtype": "complex128",
+                "as_tuple": False, "seed": seed,
+                "d": {"k": "ri", "shape": m, "dtype": "complex128", "seed": seed, "lo": -16, "hi": 16},
+                "f": {"k": "ri", "shape": n, "dtype": "complex128", "seed": seed + 1, "lo": -16, "hi": 16}}
+    for mode in ("full", "valid"):
+        for m in range(1, 9):
+            for n in range(1, 9):
+                for s_ in (None, 1, 2, 3):
+                    out.append(case(mode, [m], [n], None if s_ is None else [s_], 97 * m + 13 * n))
+    for m0 in range(1, 4):
+        for m1 in range(1, 4):
+            for n0 in range(1, 4):
+                for n1 in range(1, 4):
+                    for strides in ([1, 1], [2, 1]):
+                        out.append(case("valid", [m0, m1], [n0, n1], strides, 1000 + 27 * m0 + 9 * m1 + 3 * n0 + n1))
+    return out
+
+
+def extra_coverage(tier):
+    return {"exhaustive_subdomains": ["convolve + both adjoints + linops: 1-D m, n in 1..8 x stride {None,1,2,3} x {full,valid}; 2-D valid-mode "
+                                      "shape relations over {1..3}^4 x 2 stride sets (%d configurations, part 'lengths')" % len(sweep_configs())]}
+
+
+PARTS = [Part("conv", check_case, {"quick": 3000, "thorough": 60000}, strategy=st_case),
+         make_sweep("lengths", sweep_configs, check_case)]
 
 # thorough tier: the same Hypothesis test driven by atheris/libFuzzer (coverage on sigpy.conv/linop plain-Python code)
 FUZZ = {"parts": ["conv"], "runs": 64000}
